@@ -16,7 +16,8 @@ from vlib.serialize import Ser
 def int_delays(rng):
     ops = '~&|^nw+-*<>=xcs'
     tab = {op: rng.choice([0, 1, 1, 2, 3, 5]) for op in ops}
-    funcs = {op: (lambda width, d=d: d) for op, d in tab.items()}
+    # width-dependent: the function receives the bitwidth of the gate's first argument
+    funcs = {op: (lambda width, d=d: d + (width % 3 if d else 0)) for op, d in tab.items()}
     funcs['r'] = lambda width: -1
     funcs['@'] = lambda width: -1
     md = rng.choice([0, 2, 4])
@@ -33,7 +34,9 @@ def longest_paths(block, tab):
     budget = [200000]
 
     def delay(n):
-        return tab[n.op]
+        if n.op == 'm':
+            return tab['m']
+        return tab[n.op] + (len(n.args[0]) % 3 if tab[n.op] else 0)
 
     def walk(w, acc):
         budget[0] -= 1
@@ -123,7 +126,7 @@ def check_design(ctx, d, rng, label):
         with contextlib.redirect_stdout(io.StringIO()):
             cps = ta.critical_path(print_cp=False, cp_limit=200)
         for first, path in cps:
-            total = sum(tab[n.op] for n in path)
+            total = sum(tab[n.op] + (len(n.args[0]) % 3 if (tab[n.op] and n.op != 'm') else 0) for n in path)
             chain_ok = all(any(path[k].dests[0] is a for a in path[k + 1].args) for k in range(len(path) - 1))
             start_ok = (not path) or any(first is a for a in path[0].args)
             if total != ml or not chain_ok or not start_ok or not isinstance(first, (Input, Const, Register)):
@@ -145,7 +148,7 @@ def check_design(ctx, d, rng, label):
         # the Lean model of the timing map (tie)
         order = [ser.net_index(n) for n in blk]
         m = ctx.driver.ask({'cmd': 'timing', 'block': ser.data, 'order': order,
-                            'delays': {k: v for k, v in tab.items()}})
+                            'delays': {k: v for k, v in tab.items()}, 'wmod': 3})
         if m.get('ok'):
             name2id = {w.name: i for i, w in enumerate(ser.wires)}
             ctx.tie_n = getattr(ctx, 'tie_n', 0) + 1
@@ -200,12 +203,49 @@ def check_design(ctx, d, rng, label):
     return ok
 
 
+def mem_loop_design(rng):
+    """memories with several read ports whose data feeds back into write ports (write -> read paths that could
+    revisit a memory through another port)"""
+    pyrtl.reset_working_block()
+    d = gen.Design()
+    i = Input(4, 'i')
+    ra = Input(2, 'ra')
+    d.inputs = [i, ra]
+    m = pyrtl.MemBlock(4, 2, 'mem', asynchronous=True, max_read_ports=None, max_write_ports=None)
+    reads = []
+    for k in range(rng.randint(2, 3)):
+        a = ra if k == 0 or rng.random() < 0.5 else (ra + k)[:2]
+        reads.append(m[a])
+    wa = rng.choice([~reads[0][:2], reads[-1][:2], (reads[0] + i)[:2]])
+    m[wa] <<= pyrtl.MemBlock.EnabledWrite(rng.choice([i, reads[0] ^ i]), rng.choice([i[0], pyrtl.Const(1, 1)]))
+    if rng.random() < 0.5:
+        m2 = pyrtl.MemBlock(4, 2, 'mem2', asynchronous=True, max_read_ports=None, max_write_ports=None)
+        m2[reads[1][:2]] <<= i
+        reads.append(m2[ra])
+        d.mems = [m, m2]
+    else:
+        d.mems = [m]
+    for k, r in enumerate(reads):
+        o = Output(4, 'o%d' % k)
+        o <<= r
+        d.outputs.append(o)
+    d.block = pyrtl.working_block()
+    d.profile = 'memloop'
+    return d
+
+
 def main(ctx):
     proofs_ok = proof_gate(ctx, gen_modules=[])
     rng = ctx.rng
     n = ctx.n(150, 3000)
     agree = 0
-    for k in range(n):
+    for k in ctx.loop(n):
+        if k % 5 == 4:
+            d = mem_loop_design(rng)
+            ok = check_design(ctx, d, rng, 'memloop#%d' % k)
+            agree += ok
+            ctx.case(('memloop', len(d.block.logic)), nontrivial=True)
+            continue
         d = gen.rand_design(rng, profile='small', nops=rng.randint(3, 9), raw=False, nregs=rng.randint(0, 2),
                             nmems=rng.choice([0, 1]), nroms=0, outputs='most')
         if k % 3 == 0 and d.regs:
